@@ -39,20 +39,23 @@ IMPORT_CHILD = os.path.join(os.path.dirname(os.path.abspath(__file__)), "c07_imp
 TRUSTED = [
     "C07 floats: the implementation computes in IEEE doubles and `round(x, 1)`, the model in exact rationals; results are compared with tolerance 0.05 + 1e-9 + a computed bound on the double rounding of the inputs (near-boundary cases counted in the evidence)",
     "C07 renderer: `/proc/stat` as printed by fs/proc/stat.c (`cpu  ` + 7–10 decimal columns, `cpuN ` lines, other lines not starting with `cpu`) is a trusted transcription; tokens are decimal digit strings or strings `float()` rejects",
-    "C07 threads: the thread id is `threading.current_thread().ident`; dictionary get/set are atomic under the GIL (the interleaving theorem is at that granularity); ident re-use after a thread died is not modelled",
+    "C07 threads: the thread id is `threading.current_thread().ident`; dictionary get/set are atomic under the GIL (the interleaving theorem is at that granularity); an identifier handed out again after a thread ended IS modelled (C07_ident_reuse_inherits) and exercised with really re-used identifiers",
+    "C07 token grammar: the kernel prints every counter as `%llu` = Spec.isKernelTok (proved to be exactly the renderer's tokens, C07_grammar_exact); validated on every run against the live /proc/stat of the host (each token asked of the Lean recogniser; the whole file re-rendered byte-identically by the Lean renderer when it has <= 10 columns and CPUs numbered 0..n-1)",
+    "C07 fresh import: the module-level priming code is run for real in a child interpreter whose builtins.open serves scripted /proc/stat contents (wrapper from outside, no source hook)",
     "C07 Process.cpu_percent: /proc/<pid>/stat parsing itself is C06's subject; here utime/stime reach the model as tick counts",
 ]
 MANIFEST = {
-    "level_text": "Machine-checked Lean 4 proofs over an exact-rational model of the Linux /proc/stat parser and of the cpu_percent / cpu_times_percent / Process.cpu_percent front ends: parse∘render round trip for every kernel state (C07_times_exact, C07_per_cpu_times_exact, kernel order C07_fields_kernel_order), cpu_percent = round1(100·busy/total) for all rational samples and all four field sets (C07_percent_formula), range [0,100] (C07_percent_range), decreasing counters contribute zero (C07_decreasing_field_contributes_zero), guest not double counted (C07_guest_not_double_counted, C07_guest_accounting), cpu_times_percent shares within [0,100] (C07_tp_range) adding up to exactly 100 before rounding and within 0.05 per field after (C07_tp_sum_exact, C07_tp_sum_rounded) for EVERY positive total; the full statement C07_tp_sum_Full is proved for the guard `100/all_delta if all_delta > 0` (C07_tp_sum_fixed), proved for totals ≥ 1 s for the current guard (C07_tp_sum_partial) and REFUTED for the current `max(1, all_delta)` guard with a 0.1 s witness (C07_tp_sum_counterexample; known finding C07-tp-subsecond); every call is measured against the same thread's previous sample for every history (C07_own_previous_sample, by induction), thread independence for serial histories and for every interleaving of dictionary accesses (C07_thread_independence, C07_thread_independence_interleaved), Process.cpu_percent formula/first call/negative interval/object independence (C07_proc_percent, …). The model is tied to the code by 20 translator facts feeding the proof obligation cfg_good and by a differential run of the real functions on generated kernel states, call histories from real threads and Process histories.",
-    "level_note": "Partial: IEEE doubles are modelled by exact rationals (tolerance stated); the sum-to-100 clause is false of the current code for 0 < total < 1 s (known finding, no repair that keeps test_cpu_steal_decrease green); Process.cpu_percent's formula assumes cpu_count() constant between two calls on one object; thread steps are dictionary accesses (GIL atomicity assumed).",
+    "level_text": "Machine-checked Lean 4 proofs over an exact-rational model of the Linux /proc/stat parser and of the cpu_percent / cpu_times_percent / Process.cpu_percent front ends: parse∘render round trip for every kernel state (C07_times_exact, C07_per_cpu_times_exact, kernel order C07_fields_kernel_order), cpu_percent = round1(100·busy/total) for all rational samples and all four field sets (C07_percent_formula), range [0,100] (C07_percent_range), decreasing counters contribute zero (C07_decreasing_field_contributes_zero), guest not double counted (C07_guest_not_double_counted, C07_guest_accounting), cpu_times_percent shares within [0,100] (C07_tp_range) adding up to exactly 100 before rounding and within 0.05 per field after (C07_tp_sum_exact, C07_tp_sum_rounded) for EVERY positive total; the full statement C07_tp_sum_Full is proved for the guard `100/all_delta if all_delta > 0` (C07_tp_sum_fixed), proved for totals ≥ 1 s for the current guard (C07_tp_sum_partial) and REFUTED for the current `max(1, all_delta)` guard with a 0.1 s witness (C07_tp_sum_counterexample; known finding C07-tp-subsecond); every call is measured against the same thread's previous sample for every history (C07_own_previous_sample, by induction), thread independence for serial histories and for every interleaving of dictionary accesses (C07_thread_independence, C07_thread_independence_interleaved), Process.cpu_percent formula/first call/negative interval/object independence (C07_proc_percent, …); the full statement for ANY sequence of CPU counts (C07_proc_percent_Full) is proved for the repaired shape `delta_time = (st2 - st1) * num_cpus` over raw time stamps (C07_proc_percent_fixed) and REFUTED for the code as found, which subtracts `timer()*num_cpus` products of two different calls (C07_proc_percent_counterexample: 2 -> 1 CPUs gives a negative percentage; known finding C07-cpu-count-change, repair fixes/C07-cpu-count-change.diff); 'since module import': from the state the module-level code leaves, for every history (C07_since_import, C07_first_call_after_import); per-CPU lists of different lengths (C07_percpu_any_lengths, C07_percpu_cpu_count_change: one value per CPU present in both samples, position by position); threads versus identifiers (C07_own_thread_partial under distinct identifiers, C07_ident_reuse_inherits, C07_ident_reuse_counterexample); the kernel token grammar (C07_token_grammar, C07_grammar_exact, C07_grammar_tokens_parse). The model is tied to the code by 24 translator facts feeding the proof obligation cfg_good and by a differential run of the real functions on generated kernel states, call histories from real threads (also short-lived ones whose identifiers are handed out again), fresh imports in a child interpreter, Process histories with changing CPU counts, and the live /proc/stat.",
+    "level_note": "Partial: IEEE doubles are modelled by exact rationals (tolerance stated); the sum-to-100 clause is false of the current code for 0 < total < 1 s (known finding, no repair that keeps test_cpu_steal_decrease green); Process.cpu_percent with a CPU count that changes between two calls is false of the current code (known finding C07-cpu-count-change, small repair proposed and proved); the thread-level statement needs distinct thread identifiers (false otherwise, by design of the code; what is returned is proved); tokens float() accepts but no kernel prints are outside the claim; thread steps are dictionary accesses (GIL atomicity assumed).",
     "technique": "Lean 4 proofs (field arithmetic over ℚ, round-trip, induction over histories and interleavings) + translator-fed proof obligation + differential correspondence through a fake /proc/stat with real threads",
     "design_ref": "DESIGN.md §5 C07",
 }
 ASSUMPTIONS = [
     "USER_HZ (CLOCK_TICKS) > 0; the kernel prints at least as many columns as it did when psutil was imported",
-    "counters fit a u64; tokens of /proc/stat are decimal digit strings (malformed stream: strings float() rejects)",
+    "counters fit a u64; tokens of /proc/stat are in the grammar Spec.isKernelTok = 0|[1-9][0-9]* (malformed stream: strings float() rejects); strings float() accepts but no kernel prints (1e3, +5, nan, 1_0, inf, 1.5 …) are outside the claim — what the real parser does with them is recorded in the evidence, never compared",
+    "per-CPU results: CPU numbers are positions in the kernel's list (psutil ignores the N of cpuN); a kernel that leaves out an offline CPU in the middle of the list is outside the model",
+    "thread-level reading of 'own previous sample' needs distinct identifiers for the threads involved (IdentInjectiveOn); without it C07_ident_reuse_counterexample applies and C07_ident_reuse_inherits says what is returned",
     "float corner outside the claim: if NO non-guest counter advanced while BOTH guest and guest_nice did, (g+gn)-g-gn may leave a 1e-17 residue in doubles and cpu_percent() reports busy instead of 0.0 (counted as float_cancellation_corner)",
-    "Process.cpu_percent: cpu_count() does not change between two calls on the same Process object (CPU hot-plug while measuring is outside the formula theorem; such histories are compared with the model only)",
 ]
 
 facts = c07_facts.facts
@@ -1142,9 +1145,11 @@ def gen_import_case(rng, impl, family):
     if family == "per_read_fails":
         r1 = r1.replace(b"cpu0 ", b"cpu0 12x ", 1)
     ops = []
-    for k in range(rng.randrange(2, 6)):
+    variants = [("percent", False), ("percent", True), ("times_percent", False), ("times_percent", True)]
+    rng.shuffle(variants)
+    for k in range(rng.randrange(2, 6) if family != "importer_first" else rng.randrange(4, 7)):
         if family == "importer_first":
-            who = 0 if k == 0 else rng.choice([0, 0, 1])
+            who = 0 if k < 4 else rng.choice([0, 0, 1])
         elif family == "other_first":
             who = 1 if k == 0 else rng.choice([0, 1, 2])
         else:
@@ -1153,6 +1158,9 @@ def gen_import_case(rng, impl, family):
         percpu = rng.random() < 0.45
         r = rng.random()
         interval = None if r < 0.7 else [0, 1] if r < 0.85 else [1, 4]
+        if family == "importer_first" and k < 4:
+            # the importing thread's FIRST call through each function/variant: measured since import, one read
+            (fn, percpu), interval = variants[k], rng.choice([None, None, [0, 1]])
         reads = []
         for _ in range(2):
             cur = evolve(rng, cur, rng.choice(["mixed", "subsecond", "big", "guest"]), tck)
@@ -1218,17 +1226,15 @@ def run_import_histories(ctx, impl, res, hists, cmp, child_outputs=None):
             elif im["clock_ticks"] != impl.tck or im["fields"] != names[:nf]:
                 res.disagree("model", inp0, im, None, None, note="field set / CLOCK_TICKS after a fresh import differ from the scenario")
                 v = "model"
-            elif im["nreads"] != 3:
-                res.disagree("spec", inp0, im, mi["model"], mi["spec"],
-                             note="importing psutil read /proc/stat %d times (field set, system-wide sample, per-CPU sample = 3)" % im["nreads"])
-                v = "spec"
-            elif im["has"] != mi["spec"] or im["sizes"] != [1 if x else 0 for x in mi["spec"]] or im["distinct"] != 4:
-                res.disagree("spec", inp0, im, mi["model"], mi["spec"],
-                             note="what the import left in the four _last_* dictionaries differs from one sample per variant for the importing thread only")
-                v = "spec"
             elif mi["model"] != mi["spec"]:
                 res.disagree("model", inp0, im, mi["model"], mi["spec"], note="Lean importState and importSample differ")
                 v = "model"
+            else:
+                # the dictionaries themselves are internal: what the import left in them is only COUNTED; the
+                # observable is what the first calls return and how many reads they take (below)
+                as_modelled = (im["nreads"] == 3 and im["has"] == mi["spec"] and im["distinct"] == 4
+                               and im["sizes"] == [1 if x else 0 for x in mi["spec"]])
+                res.count("import:dictionaries_%s" % ("as_modelled" if as_modelled else "NOT_as_modelled"))
             res.count("import:on_%s:has=%s" % (h["import_on"], "".join("1" if x else "0" for x in (im.get("has") or []))))
         first_by = {}
         for idx, op in enumerate(h["ops"]):
